@@ -78,7 +78,7 @@ class Ctx:
             self.samples.append(sample)
 
     def disagree(self, stream: str, index: int, what: str, detail: dict) -> None:
-        self.disagreements.append({'stream': stream, 'index': index, 'what': what, 'detail': detail})
+        self.disagreements.append({'stream': stream, 'index': index, 'seed': self.seed, 'what': what, 'detail': detail})
 
     def dump(self) -> dict:
         return {'evaluations': self.evaluations, 'nontrivial': sorted(self.nontrivial),
@@ -102,7 +102,7 @@ class Ctx:
 
     def fail(self, stream: str, index: int, signature: str, what: str, detail: dict) -> None:
         """The property predicate is false on the real implementation for this case."""
-        self.failures.append({'stream': stream, 'index': index, 'signature': signature,
+        self.failures.append({'stream': stream, 'index': index, 'seed': self.seed, 'signature': signature,
                               'what': what, 'detail': detail})
 
 
@@ -143,7 +143,7 @@ def verdict(ctx: Ctx, proof: dict, meta: dict) -> int:
         if f['signature'] in reported:
             continue
         reported.add(f['signature'])
-        path = write_replay(ctx.prop, ctx.seed, ctx.tier, 'failing-input', f)
+        path = write_replay(ctx.prop, f.get('seed', ctx.seed), ctx.tier, 'failing-input', f)
         print(f'VIOLATION property={ctx.prop} replay={path}')
         print(f"  failing input on the implementation: {f['what']}", file=sys.stderr)
         violations += 1
@@ -153,7 +153,7 @@ def verdict(ctx: Ctx, proof: dict, meta: dict) -> int:
     explained = violations > 0   # an unlisted failing input was exhibited (known findings explain nothing)
     if ctx.disagreements and not explained:
         d = ctx.disagreements[0]
-        path = write_replay(ctx.prop, ctx.seed, ctx.tier, 'correspondence-broken',
+        path = write_replay(ctx.prop, d.get('seed', ctx.seed), ctx.tier, 'correspondence-broken',
                             {'correspondence': f'{ctx.prop.lower()} model/implementation comparison',
                              'first': d, 'count': len(ctx.disagreements)})
         print(f'VIOLATION property={ctx.prop} replay={path} no-failing-input-found')
@@ -191,6 +191,8 @@ def write_evidence(ctx: Ctx, proof: dict, meta: dict, violations: int) -> None:
         'oracle_failures': len(ctx.failures),
         'skipped_outside_model': ctx.skipped,
         'exhaustive': bool(meta.get('exhaustive', False)),
+        'seeds_explored': [ctx.seed + 1000 * r for r in range(getattr(ctx, 'rounds', 1))],
+        'independent_recheck': proof.get('leanchecker', 'not run in this tier'),
         'notes': ctx.notes,
     }
     ev = {
